@@ -304,6 +304,19 @@ def f24_backup_number_beyond_u64(xcp, d):
             bad.append("%s: exit %d, old content preserved somewhere: %s, a number below the existing one handed out: %s" % (mode, rc, kept, low))
     return bad
 
+def f25_parblock_tmpfs_sparse(xcp, d):
+    """C11 (known finding): parblock on a source without FIEMAP (tmpfs) materialises the holes"""
+    shm = tempfile.mkdtemp(prefix="xcp-replay-", dir="/dev/shm")
+    try:
+        src = os.path.join(shm, "s")
+        with open(src, "wb") as f:
+            f.seek(32 << 20); f.write(b"x" * 4096)
+        rc, err = run(xcp, ["--driver", "parblock", src, os.path.join(d, "dst")], d)
+        sb, db = os.stat(src).st_blocks, os.stat(os.path.join(d, "dst")).st_blocks
+        return ["exit %d, source %d sectors allocated, destination %d" % (rc, sb, db)] if db > 4 * max(sb, 64) else []
+    finally:
+        shutil.rmtree(shm, ignore_errors=True)
+
 ALL = {"new:create-before-identity-check": f1_self_copy, "parfile:symlink-result-discarded": f2_symlink_result,
        "copy_node:dev-not-rdev": f3_device_number, "parblock:short-copy-not-retried": f5_short_copy,
        "walker:deref-does-not-follow-dir-links": f8_deref_dir_link, "finalise:chown-after-chmod": f9_setid_ownership,
@@ -320,7 +333,8 @@ ALL = {"new:create-before-identity-check": f1_self_copy, "parfile:symlink-result
        "uspace-range:eof-is-an-error": f21_parblock_fallback_eof,
        "main:same-file-by-spelling-only": f22_same_file_by_spelling,
        "main:dir-onto-file-multi-source": f23_dir_onto_file_multi,
-       "backup:number-beyond-u64": f24_backup_number_beyond_u64}
+       "backup:number-beyond-u64": f24_backup_number_beyond_u64,
+       "parblock:no-extent-map-dense-copy": f25_parblock_tmpfs_sparse}
 
 def main():
     repo = sys.argv[1]
